@@ -7,9 +7,10 @@ grid of long synthetic phases.  Oracle: wrap positions recomputed from the phase
 import itertools
 import numpy as np
 
-from ..engine.explore import Outcome, Refill
+from ..engine.explore import Outcome, Refill, Holder
 
 _refill = Refill()
+_holder = Holder()
 from ..engine import enum
 
 PID = 'C12'
@@ -212,6 +213,8 @@ def check_case(case):
             # a caller-owned buffer refilled in place from case to case (one per shape / dtype)
             ph_in = _refill.primed(phase, 'phase', lambda b_: get_cycle_vector(b_, return_good=rg, phase_step=step))
             out = get_cycle_vector(ph_in, return_good=rg, phase_step=step)
+            for m_ in _holder.swap(out, 'get_cycle_vector %s return_good=%s' % (describe(case), rg)):
+                viols.append(('earlier-result-changed', m_))
             if not np.array_equal(ph_in, phase):
                 viols.append(('input-modified', '%s: the phase array was changed' % describe(case)))
         except Exception as e:  # "detection never fails"
